@@ -629,6 +629,11 @@ func (f *OrefaFile) Write(b []byte) (n int, err error) {
 
 	nd.mu.Lock()
 
+	if f.openMode&avfs.OpenAppend != 0 {
+		// O_APPEND : every write lands at the current end of the file.
+		f.at = int64(len(nd.data))
+	}
+
 	if diff := f.at - int64(len(nd.data)); diff > 0 {
 		// the offset is beyond the end of the file : fill the gap with zeros.
 		nd.data = append(nd.data, make([]byte, diff)...)
